@@ -299,7 +299,7 @@ theorem gv_popOrder (p : Pool) : gv p.popOrder.1 = gv p := by
   have h1 := gv_foldl (fun q m => q.metaCancel m) (fun q m => gv_metaCancel q m)
     (indicesWhere p.reqs fun r => r.inRunning && r.group == g) p
   refine Eq.trans ?_ h1
-  refine gv_mapReqs _ (fun (r : Req) => if r.inRunning && r.group == g then { r with inRunning := false, inCancelled := true } else r)
+  refine gv_mapReqs _ (fun (r : Req) => if r.inRunning && r.group == g then { r with inRunning := false, inCancelled := true, everCancelled := true } else r)
     ?_ _ rfl rfl rfl rfl
   intro r; split <;> exact ⟨rfl, rfl⟩
 
